@@ -52,6 +52,7 @@ def instances(tier):
     out.append({"kind": "group_silence", "gen": 4, "periods": n, "unsolicited": 2})
     out.append({"kind": "group_silence_answered", "gen": 4})
     out.append({"kind": "group_silence_reconnect", "gen": 4})
+    out.append({"kind": "group_silence_outage", "gen": 4})     # the 300 s deadline falls into an outage with a (nearly) full buffer
     for g in (4, 5):
         out.append({"kind": "flapping", "gen": g})
         out.append({"kind": "held_commands", "gen": g})
@@ -75,6 +76,8 @@ def run(ctx, p):
         return _half_open(ctx, p)
     if p["kind"] == "group_silence_reconnect":
         return _group_silence_reconnect(ctx, p)
+    if p["kind"] == "group_silence_outage":
+        return _group_silence_outage(ctx, p)
     if p["kind"] == "flapping":
         return _flapping(ctx, p)
     if p["kind"] == "held_commands":
@@ -265,6 +268,49 @@ def _group_silence_reconnect(ctx, p):
         ok = len(reqs) == 4 and _b(sym_and(*[a == b for a, b in zip(reqs, exp)]))
         ctx.check(ok, "at4.group_poll_after_300s", detail={"requests": [str(t) for t in reqs], "expected": [str(t) for t in exp]})
         ctx.check(len(rig.net.conns) == 2 and not rig.task_failures(), "refresh.requests_first", detail="connections / task failure")
+    for lab in expect_labels("quick"):
+        ctx.reach(lab)
+
+
+def _group_silence_outage(ctx, p):
+    """AT4, the console is silent about groups; the link is down from t=200 until a free instant after the 300 s deadline,
+    and nine or ten commands (all the buffer holds) are accepted just before the deadline. For as long as the silence lasts
+    the request is repeated: after the link is back there is never a stretch of more than 300 s without one."""
+    g = Gen(4)
+    inst = Installation.simple(4, n_acs=1, zones_per_ac=2)
+    t_back = ctx.real("t_back", 301, 325)
+    n_held = (9, 10)[ctx.choice("held", 2)]
+    horizon = 1250.0
+    with ApiRig(ctx, g, inst) as rig:
+        con = rig.console
+        rig.net.on_connect = lambda net, n: (("accept", 0) if (n == 0 or _b(rig.loop.time() >= t_back)) else ("refuse",))
+        rig.start()
+        rig.run(0.5)
+        ctx.check(rig.init_result is True, "at4.group_poll_after_300s", detail="handshake failed")
+        con.silent.add("zone_status")
+        rig.loop.vt_call_at(200.0, lambda: rig.net.current().reset())
+        ac = rig.ac(0)
+
+        async def cmds():
+            for i in range(n_held):
+                try:
+                    await ac.set_target_temperature(20 + i % 6)
+                except Exception:  # noqa: BLE001
+                    pass
+
+        rig.loop.vt_call_at(295.0, lambda: rig.spawn(cmds()))
+        rig.run(299.0)
+        n0 = len(con.requests)
+        rig.run(horizon)
+        reqs = [t for t, k, _ in con.requests[n0:] if k == "zone_status"]
+        ctx.observe("requests", len(reqs))
+        detail = {"held": n_held, "requests": [str(t) for t in reqs], "conns": len(rig.net.conns)}
+        ok = len(reqs) >= 1 and _b(reqs[0] <= t_back + 2.5)
+        for a, b in zip(reqs, reqs[1:]):
+            ok = ok and _b(b - a <= 300)
+        ok = ok and len(reqs) >= 1 and _b(reqs[-1] >= horizon - 300)
+        ctx.check(ok, "at4.group_poll_after_300s", detail=detail)
+        ctx.check(not rig.task_failures(), "at4.group_poll_after_300s", detail="unhandled exception in a client task")
     for lab in expect_labels("quick"):
         ctx.reach(lab)
 
